@@ -875,6 +875,9 @@ func VerifC10ElemBytes() {
 	var n int
 	if variable {
 		n = vChoice("n", 8)
+		if kind == 13 && n == 7 {
+			n = 37 // DeliveryAddress: room for the maximum 34-byte address
+		}
 	} else {
 		n = []int{0, width - 1, width, width + 1}[vChoice("nsel", 4)]
 	}
@@ -891,13 +894,13 @@ func VerifC10ElemBytes() {
 			// the longer CompactSize forms must encode >= 0xfd: never <= 34
 		case n >= 2:
 			decl := c10FromBE(b[:2])
-			// explored domain: declared length <= 8, or (DeliveryAddress) > 34
+			// explored domain: declared length <= 8, or (DeliveryAddress) >= 34
 			if kind == 13 {
-				vAssume(decl <= 8 || decl > 34)
+				vAssume(decl <= 8 || decl >= 34)
 			} else {
 				vAssume(decl <= 8)
 			}
-			if decl <= uint64(n-2) {
+			if decl <= uint64(n-2) && (kind != 13 || decl <= 34) {
 				wantOK, wantLen = true, 2+int(decl)
 			}
 		}
@@ -1102,6 +1105,66 @@ func VerifC10MsgValue() {
 	vAssert(m2.Decode(bytes.NewReader(enc), 0) == nil, "Decode accepts what Encode wrote")
 	vAssert(spec.eq(m, m2), "decode(encode(m)) == m (fields, optional records, custom records)")
 	vAssert(bytes.Equal(extra0, spec.extra(m2)), "decode(encode(m)) == m (extension data)")
+}
+
+// ---------------------------------------------------------------- item 6: ReadMessage / WriteMessage
+
+// VerifC10Dispatch: for every 16-bit message type, the dispatcher used by
+// ReadMessage either refuses the type as unknown (only below the custom range
+// 32768) or returns a message whose MsgType() is the type read; ReadMessage on
+// the two type bytes followed by an empty body never panics and a message it
+// returns has the type read.
+func VerifC10Dispatch() {
+	c10Config()
+	t := vU16("type")
+	msg, err := MakeEmptyMessage(MessageType(t))
+	if err != nil {
+		vReach("unknown")
+		vAssert(t < 32768, "types in the custom range (>= 32768) always dispatch")
+		_, isUnknown := err.(*UnknownMessage)
+		vAssert(isUnknown, "an unregistered type is refused with UnknownMessage")
+		_, err2 := ReadMessage(bytes.NewReader(c10BE(uint64(t), 2)), 0)
+		vAssert(err2 != nil, "ReadMessage refuses an unregistered type")
+		return
+	}
+	vReach("known")
+	vAssert(uint16(msg.MsgType()) == t, "dispatch returns a message of the type read")
+	m2, err2 := ReadMessage(bytes.NewReader(c10BE(uint64(t), 2)), 0)
+	if err2 == nil {
+		vReach("empty-body-accepted")
+		vAssert(uint16(m2.MsgType()) == t, "ReadMessage returns a message of the type read")
+	}
+}
+
+// VerifC10WriteMessageBound: a message is its 2-byte type plus the payload and
+// must fit the 65535-byte transport bound (BOLT-1/BOLT-8): WriteMessage accepts
+// a payload of exactly 65533 bytes and refuses 65534, restoring the buffer (two
+// concrete lengths at the bound; field contents symbolic).
+func VerifC10WriteMessageBound() {
+	over := vChoice("over", 2)
+	n := 65533 - 36 + over
+	x := &UpdateFee{ChanID: c10Chan("chan"), FeePerKw: vU32("feekw"), ExtraData: make([]byte, n)}
+	x.ExtraData[0] = vU8("x0")
+	x.ExtraData[n-1] = vU8("xlast")
+	var buf bytes.Buffer
+	buf.Write([]byte{0xaa}) // earlier content of the buffer must survive
+	k, err := WriteMessage(&buf, x, 0)
+	if over == 1 {
+		vReach("refused")
+		vAssert(err != nil, "a message of 65536 bytes (type + payload) is refused")
+		vAssert(k == 0 && buf.Len() == 1, "a refused message leaves the buffer as it was")
+		return
+	}
+	vReach("written")
+	vAssert(err == nil, "a message of 65535 bytes (type + payload) is accepted")
+	vAssert(k == 65535 && buf.Len() == 1+k, "WriteMessage reports type + payload bytes")
+	out := buf.Bytes()
+	vAssert(out[0] == 0xaa && out[1] == 0 && out[2] == byte(MsgUpdateFee), "type prefix is the big-endian message type (update_fee = 134)")
+	vAssert(out[3+36] == x.ExtraData[0] && out[len(out)-1] == x.ExtraData[n-1], "payload follows the type")
+	m, err := ReadMessage(bytes.NewReader(out[1:]), 0)
+	vAssert(err == nil, "ReadMessage accepts the maximum-size message")
+	y, ok := m.(*UpdateFee)
+	vAssert(ok && y.ChanID == x.ChanID && y.FeePerKw == x.FeePerKw && len(y.ExtraData) == n, "maximum-size message round-trips")
 }
 
 var _ = io.EOF
